@@ -241,6 +241,7 @@ async def _run(sc: dict, holder: dict | None = None) -> dict:
     t_base = loop.time()
 
     tasks: dict[int, asyncio.Task] = {}
+    harness_cancelled: set[int] = set()
     shared: dict[str, Any] = {}
     if holder is not None:
         holder.update(R=R, tasks=tasks, ctx=proto._context)
@@ -266,7 +267,9 @@ async def _run(sc: dict, holder: dict | None = None) -> dict:
         except asyncio.TimeoutError:
             R.rec(e="Raise", i=i, k="outer_timeout" if c.get("outer") is not None else "TimeoutError", s="TimeoutError")
         except asyncio.CancelledError:
-            R.rec(e="Raise", i=i, k="cancelled", s="CancelledError")
+            # only the harness cancels a caller task, and only one it has already reported as hung; a CancelledError
+            # that reaches the caller otherwise was delivered by the library (not a protocol error: C07b)
+            R.rec(e="Raise", i=i, k="cancelled" if i in harness_cancelled else "cancelled_by_library", s="CancelledError")
             raise
         except BaseException as err:  # noqa: BLE001
             R.rec(e="Raise", i=i, k="other", s=type(err).__name__, a=1 if isinstance(err, AssertionError) else 0)
@@ -362,6 +365,7 @@ async def _run(sc: dict, holder: dict | None = None) -> dict:
     R.rec(e="Quiesce", k=type(ctx.state).__name__, a=1 if ctx._cmd is None else 0, n=live_q,
           b=1 if (fut is None or fut.done()) else 0, s="up" if connected["up"] else "down")
     for i in hung:
+        harness_cancelled.add(i)
         tasks[i].cancel()
     await vloop.drain()
     # probe: a fresh command to a responsive device must succeed
